@@ -27,7 +27,7 @@ IDS = [None, ("A1", "A1"), ("prod_2x", "prod_2x"), ("ABCDEFGHIJKLMNOP", "ABCDEFG
 
 def bounds(tier):
     return dict(enzymes=["BsaI", "BbsI", "FokI", "BspD6I"] if tier == "quick" else "all enzyme geometries", k=[1, 2, 3], schemes=[0, 1],
-                ids=[list(i) if i else "default" for i in IDS], variants=["plain", "annotated", "rotated", "with-unused-module"],
+                ids=[list(i) if i else "default" for i in IDS], variants=["plain", "annotated", "rotated", "with-unused-module"] + (["annotated participant at every rotation, each in turn"] if tier == "thorough" else []),
                 two_level=["cidar", "ecoflex", "moclo"], two_level_entries=[1, 2, 3], cassette_rotations_before_reuse=[0, 3, "n/2"])
 
 
@@ -138,7 +138,8 @@ def run_single(st, scn):
         feats = annotate(s, name) if variant in ("annotated", "rotated") else []
         r = CircularRecord(Seq(s), id=name, name=name, features=feats, annotations={"topology": "circular"})
         if variant == "rotated":
-            r = r >> (3 + 2 * j)
+            rot = scn.get("rot")
+            r = r >> ((3 + 2 * j) if rot is None else (rot[1] if j == rot[0] else 0))
         recs[name] = r
     if variant == "with-unused-module":
         g = gen.geometry_of(gen.enzyme(enz))
@@ -200,6 +201,17 @@ def run_unit(unit, st, tier):
                             st.goal("annotated-inputs")
                         if variant == "rotated":
                             st.goal("rotated-inputs")
+        if tier == "thorough":
+            # every rotation of every (annotated) participant in turn
+            base = asm.base_scenario(enz, k)
+            if base is not None and asm.well_formed(base)[0]:
+                vec, mods = asm.pieces_to_plasmids(base)
+                for which, s in enumerate([vec] + mods):
+                    for r in range(1, len(s)):
+                        scn = dict(enz=enz, k=k, scheme=0, variant="rotated", ids=None, rot=[which, r])
+                        o = run_single(st, scn)
+                        st.scenario("product" if o else "none", None)
+                        st.nontrivial += 1
         st.sample(dict(enz=enz, k=k, scheme=0, variant="annotated", ids=["pX1", "nameY"]))
     else:
         kit = arg
